@@ -114,13 +114,6 @@ Definition move_basis : pbasis :=
   mkPB heap [(0, 4); (0, 5); (1, 6); (1, 7); (2, 8); (2, 9); (3, 4); (3, 5)] move_coeffs.
 
 (* ---------- _nonlocal_qpd_basis_from_u ---------- *)
-Definition cmulE (x y : cxe) : cxe :=
-  (CAdd (CMul (fst x) (fst y)) (COpp (CMul (snd x) (snd y))), CAdd (CMul (fst x) (snd y)) (CMul (snd x) (fst y))).
-Definition cconjE (x : cxe) : cxe := (fst x, COpp (snd x)).
-Definition caddE (x y : cxe) : cxe := (CAdd (fst x) (fst y), CAdd (snd x) (snd y)).
-Definition cscaleE (q : Q) (x : cxe) : cxe := (CMul (CQ q) (fst x), CMul (CQ q) (snd x)).
-Definition abs2E (x : cxe) : cexpr := CAdd (CMul (fst x) (fst x)) (CMul (snd x) (snd x)).
-
 Definition re (q : Q) (z : cxe) : cexpr := CMul (CQ q) (fst z).      (* q * np.real(z) *)
 Definition im (q : Q) (z : cxe) : cexpr := CMul (CQ q) (snd z).      (* q * np.imag(z) *)
 
@@ -165,7 +158,6 @@ Definition nonlocal_basis (u : list cxe) : pbasis :=
   mkPB heap' (combine maps1 maps2') (map (fun r => fst (fst r)) rows).
 
 (* ---------- _u_from_thetavec ---------- *)
-Definition vCa := 3. Definition vSa := 4. Definition vCb := 5. Definition vSb := 6. Definition vCc := 7. Definition vSc := 8.
 (* exp(i·(sa·a + sb·b + sc·c)) for signs in {+1,-1}, as a product of unit complex numbers *)
 Definition expi_signed (sa sb sc : bool) : cxe :=
   let e := fun (vc vs : nat) (pos : bool) => (CV vc, if pos then CV vs else COpp (CV vs)) in
